@@ -165,6 +165,16 @@ def library_pool(with_doit: bool = True) -> list[dict]:  # noqa: PLR0914, PLR091
     return out
 
 
+def custom_phase_space(s, m1, m2, variant=1):
+    """A user-defined phase-space factor (module level, hence picklable through functools.partial)."""
+    import sympy as sp  # noqa: PLC0415
+
+    from ampform.dynamics.phasespace import BreakupMomentumSquared  # noqa: PLC0415
+
+    q2 = BreakupMomentumSquared(s, m1, m2)
+    return sp.sqrt(q2) / sp.sqrt(s) if variant == 1 else sp.sqrt(sp.Abs(q2)) / (8 * sp.pi * sp.sqrt(s))
+
+
 def random_entry(seed) -> dict:
     """A seeded random composite of library expressions: 2-3 pool members combined by arithmetic,
     functions, nesting (one member substituted for a symbol of another) and PoolSum/indices."""
